@@ -16,6 +16,7 @@ Not decided: csv quoting, float formatting to the written precision, exec of the
 import ast
 
 from vlib import q
+from vlib.pat import Pat, returned
 from vlib.front import unparse, dotted, const_value, is_none, walk_local_ordered
 
 M = 'phylib/utils/_misc.py'
@@ -168,7 +169,7 @@ def t1_array_codec(ctx):
         test, r = small
         parts = [q.simple_compare(c) for c in q.conjuncts(test)]
         parts = [p for p in parts if p]
-        nd = any(unparse(a) == '%s.ndim' % obj and op == '==' and const_value(b) == 1 for a, op, b in parts)
+        nd = any(Pat().any(['%s.ndim == 1' % obj, 'len(%s.shape) == 1' % obj, 'np.ndim(%s) == 1' % obj], c) for c in q.conjuncts(test))
         bound = None
         for a, op, b in parts:
             ta = unparse(a)
@@ -189,9 +190,15 @@ def t1_array_codec(ctx):
     for test, body in _branches(enc, ctx):
         if test is not None and _isinstance_of(test, obj, 'generic'):
             rets = [n for s in body for n in ([s] + list(walk_local_ordered(s))) if isinstance(n, ast.Return)]
-            ok = any(r.value is not None and unparse(r.value) in ('%s.item()' % obj, '%s.tolist()' % obj) for r in rets)
-            ctx.check(ok, 'C18.T1', enc, rets[0] if rets else test, 'NumPy scalars are encoded through .item()',
-                      'NumPy scalar branch does not return obj.item()')
+            vals = [enc.expand(r.value) for r in rets if r.value is not None]
+            ok = any(Pat().any(['%s.item()' % obj, '%s.tolist()' % obj], v) for v in vals)
+            conv = any(isinstance(v, ast.Call) and dotted(v.func) in ('float', 'int', 'str', 'repr') for v in vals)
+            if ok:
+                ctx.holds('C18.T1', enc, 'NumPy scalars are encoded through .item()', rets[0])
+            elif conv or not vals:
+                ctx.violated('C18.T1', enc, rets[0] if rets else test, 'NumPy scalar branch does not return obj.item() (`%s`): integer / boolean scalars change type' % (unparse(vals[0]) if vals else 'nothing returned'))
+            else:
+                ctx.undecided('C18.T1', enc, 'NumPy scalar branch not in a recognised form', rets[0])
             found = True
     if not found:
         ctx.violated('C18.T1', enc, enc.node.name, 'no branch encodes NumPy scalars (np.generic): such values cannot be serialised')
@@ -496,9 +503,12 @@ def t3_tsv(ctx):
     hdr_unp = [a for a in rs.nodes(ast.Assign) if isinstance(a.targets[0], ast.Tuple) and isinstance(a.value, ast.Call) and dotted(a.value.func) == 'next']
     if hdr_unp:
         names = [unparse(e) for e in hdr_unp[0].targets[0].elts]
-        ret = [r_ for r_ in rs.returns() if isinstance(r_.value, ast.Tuple)]
-        ctx.check(len(names) == 2 and bool(ret) and unparse(ret[-1].value.elts[0]) == names[1], 'C18.T3', rs, hdr_unp[0],
-                  'the returned field name is the second header cell', 'the returned field name is not the second header cell')
+        ret = [x for _, x in returned(rs) if isinstance(x, ast.Tuple) and len(x.elts) == 2]
+        if len(names) != 2 or not ret:
+            ctx.undecided('C18.T3', rs, 'header unpacking / returned pair of _read_tsv_simple not recognised')
+        else:
+            ctx.check(unparse(ret[-1].elts[0]) == names[1], 'C18.T3', rs, hdr_unp[0],
+                      'the returned field name is the second header cell', 'the returned field name is `%s`, not the second header cell' % unparse(ret[-1].elts[0]))
     # _try_make_number: int is attempted before float
     tm = repo.func(M, '_try_make_number')
     convs = [(n.lineno, n.col_offset, dotted(n.func)) for n in walk_local_ordered(tm.node) if isinstance(n, ast.Call) and dotted(n.func) in ('int', 'float')]
